@@ -618,6 +618,12 @@ class FactBase:
                     return c['v']
         return None
 
+    def const(self, qname):
+        v = self.global_const(qname)
+        if v is None:
+            v = self.enum_const(qname)
+        return v
+
     def global_const(self, qname):
         g = self.globals.get(qname)
         if g is None:
